@@ -26,7 +26,8 @@ let compile_of (input : Sx.t) : coq_N list -> re option =
   let tbl = List.map (fun r -> match Sx.args r with
       | [src; ast] -> (str src, if Sx.tag ast = "bad" then None else Some (re_of ast))
       | _ -> failwith "regexes") (Sx.args (Sx.field "regexes" input)) in
-  fun src -> (try List.assoc src tbl with Not_found -> None)
+  (* a source that is not in the table makes the case unreadable (it can only come from a shrinking step) *)
+  fun src -> (try List.assoc src tbl with Not_found -> failwith "regex source not in the table of the case")
 
 let route_of (x : Sx.t) : route =
   List.map (fun s -> match Sx.args s with
